@@ -61,6 +61,7 @@ def run(ck: Checker, prog: Program, tier: str):
         ck.guard(c04._orientation_carried, ck, prog)
     ck.guard(_check_npts_rule, ck, prog)
     ck.guard(_read_single, ck, prog)
+    ck.guard(_obspy_wrapper, ck, prog)
     ck.guard(_read, ck, prog)
     ck.guard(_regex, ck, prog)
 
@@ -71,6 +72,10 @@ def _ctor_call(f) -> Optional[ast.Call]:
 
 
 def _arrange(ck: Checker, prog: Program):
+    f = prog.func("data_wrangler._arrange_traces")
+    if not any(isinstance(st, ast.For) for st in f.node.body) and _arrange_sorted(ck, prog, f):
+        _arrange_callers(ck, prog)
+        return
     try:
         _arrange_table(ck, prog)
     except AnalysisError as e:
@@ -78,6 +83,94 @@ def _arrange(ck: Checker, prog: Program):
         _arrange_forms(ck, prog)
         return
     _arrange_callers(ck, prog)
+
+
+def _arrange_sorted(ck: Checker, prog: Program, f) -> bool:
+    """Loop-free variant: the traces are put in the order of a sort key and unpacked.  Sorting by the channel name's last letter
+    gives (E, N, Z); sorting by anything more (the whole channel code) lets band / instrument letters decide the component."""
+    q = f.qualname
+    tr_param = f.params[0]
+    body = f.node.body
+    defs = {st.targets[0].id: st.value for st in body if isinstance(st, ast.Assign) and len(st.targets) == 1 and isinstance(st.targets[0], ast.Name)}
+
+    def deref(e):
+        seen = 0
+        while isinstance(e, ast.Name) and e.id in defs and seen < 5:
+            e = defs[e.id]
+            seen += 1
+        return e
+
+    def key_kind(e, var) -> Optional[str]:
+        ch = f"{var}.meta.channel"
+        u = unparse(e)
+        if u in (f"{ch}[-1]", f"{ch}[-1:]"):
+            return "last"
+        if u in (ch, f"{var}.stats.channel", f"{var}.id"):
+            return "whole"
+        if u in (f"{var}.stats.channel[-1]", f"{var}.stats.channel[-1:]"):
+            return "last"
+        return None
+
+    def keys_of(e) -> Optional[str]:
+        """kind of a per-trace key list [key(t) for t in traces]"""
+        e = deref(e)
+        if isinstance(e, (ast.ListComp, ast.GeneratorExp)) and len(e.generators) == 1 and not e.generators[0].ifs and isinstance(e.generators[0].target, ast.Name):
+            g = e.generators[0]
+            src = deref(g.iter)
+            if isinstance(g.iter, ast.Name) and g.iter.id == tr_param:
+                return key_kind(e.elt, g.target.id)
+            inner = keys_of(g.iter)
+            if inner == "whole" and unparse(e.elt) in (f"{g.target.id}[-1]", f"{g.target.id}[-1:]"):
+                return "last"
+        return None
+    unpack = [st for st in body if isinstance(st, ast.Assign) and len(st.targets) == 1 and isinstance(st.targets[0], (ast.Tuple, ast.List))
+              and len(st.targets[0].elts) == 3 and all(isinstance(e, ast.Name) for e in st.targets[0].elts)]
+    rets = [r for r in own_nodes(f.node) if isinstance(r, ast.Return)]
+    if len(unpack) != 1 or len(rets) != 1 or not isinstance(rets[0].value, ast.Tuple) or len(rets[0].value.elts) != 3 \
+            or not all(isinstance(e, ast.Name) for e in rets[0].value.elts):
+        return False
+    v = deref(unpack[0].value)
+    if not (isinstance(v, (ast.ListComp, ast.GeneratorExp)) and len(v.generators) == 1 and not v.generators[0].ifs and isinstance(v.generators[0].target, ast.Name)
+            and isinstance(v.elt, ast.Call) and call_name(v.elt) == "from_trace" and len(v.elt.args) == 1):
+        return False
+    g = v.generators[0]
+    it = deref(g.iter)
+    kind = None
+    arg = unparse(v.elt.args[0])
+    if isinstance(it, ast.Call) and call_name(it) == "argsort" and it.args and arg == f"{tr_param}[{g.target.id}]":
+        kind = keys_of(it.args[0])
+    elif isinstance(it, ast.Call) and call_name(it) == "sorted" and it.args and unparse(it.args[0]) == tr_param and arg == g.target.id:
+        k = kwarg(it, "key")
+        if isinstance(k, ast.Lambda) and len(k.args.args) == 1:
+            kind = key_kind(k.body, k.args.args[0].arg)
+    if kind is None:
+        return False
+    slots = [e.id for e in rets[0].value.elts]          # callers unpack (ns, ew, vt)
+    got = [e.id for e in unpack[0].targets[0].elts]
+    if kind == "last":
+        ck.ok("C07.R1", q, "traces ordered by the last letter of the channel name")
+    else:
+        ck.violation("C07.R1", q, "component order key", "the traces are ordered by the whole channel code, not by its last letter: band/instrument letters or "
+                     "trace order could decide the component (e.g. channels BHZ, HHE, HHN)", loc=f.loc(unpack[0]))
+    if got == [slots[1], slots[0], slots[2]]:
+        ck.ok("C07.R1", q, "sorted order (E, N, Z) unpacked into (ew, ns, vt); returns (ns, ew, vt)")
+    else:
+        ck.violation("C07.R1", q, "return order", f"the sorted traces (E, N, Z) are unpacked into {got} and returned as {slots}; callers unpack (ns, ew, vt)", loc=f.loc(unpack[0]))
+    # refusal: the multiset of last letters must be exactly E, N, Z
+    refusal = False
+    for st in body:
+        if isinstance(st, ast.If) and any(isinstance(b, ast.Raise) for b in st.body) and isinstance(st.test, ast.Compare) and len(st.test.ops) == 1 \
+                and isinstance(st.test.ops[0], ast.NotEq):
+            a, b = st.test.left, st.test.comparators[0]
+            for x, y in ((a, b), (b, a)):
+                if isinstance(x, ast.Call) and call_name(x) == "sorted" and x.args and keys_of(x.args[0]) == "last" \
+                        and isinstance(y, (ast.List, ast.Tuple)) and [getattr(e, "value", None) for e in y.elts] == ["E", "N", "Z"]:
+                    refusal = True
+    if refusal:
+        ck.ok("C07.R2", q, "anything else raises (missing / duplicate / misnamed component)")
+    else:
+        ck.violation("C07.R2", q, "refusal", "a missing, duplicated or misnamed component is not refused (the last letters are not required to be exactly E, N, Z)", loc=f.loc())
+    return True
 
 
 def _arrange_table(ck: Checker, prog: Program):
@@ -862,6 +955,51 @@ def _argument_purity(ck: Checker, prog: Program):
     ck.floor("C07.R4", n, 8, "readers checked for argument purity")
 
 
+def _obspy_wrapper(ck: Checker, prog: Program):
+    """_quiet_obspy_read hands its arguments to obspy.read as given (no option added: a `dtype`, `format` or `headonly` the caller
+    did not ask for changes the samples that are read) and returns what obspy.read returned."""
+    f = prog.funcs.get("data_wrangler._quiet_obspy_read")
+    if f is None:
+        raise AnalysisError("data_wrangler._quiet_obspy_read not found")
+    q = f.qualname
+    va, kwa = (f.node.args.vararg.arg if f.node.args.vararg else None), (f.node.args.kwarg.arg if f.node.args.kwarg else None)
+    reads = [c for c in calls_in(f.node, "read") if isinstance(c.func, ast.Attribute) and unparse(c.func.value) == "obspy"]
+    if len(reads) != 1:
+        raise AnalysisError(f"{q}: expected one obspy.read call")
+    c = reads[0]
+    if va is None and kwa is None:
+        raise AnalysisError(f"{q}: signature without *args / **kwargs")
+    as_given = [unparse(a) for a in c.args] == ([f"*{va}"] if va else []) and [(k.arg, unparse(k.value)) for k in c.keywords] == ([(None, kwa)] if kwa else [])
+    inside = {id(x) for x in ast.walk(c)}
+    other = [x for x in ast.walk(f.node) if isinstance(x, ast.Name) and x.id in (va, kwa) and id(x) not in inside]
+    if as_given and not other:
+        ck.ok("C07.R1", q, "obspy.read(*args, **kwargs): the caller's arguments and options, nothing added")
+    else:
+        what = norm_key(parent_stmt(other[0]), 70) if other else norm_key(c, 70)
+        ck.violation("C07.R1", q, "options handed to obspy.read", f"obspy.read does not receive exactly the caller's arguments and options (`{what}`): the samples read "
+                     f"(type, precision, selection) are no longer those stored in the file", loc=f.loc(other[0] if other else c))
+    rets = [r for r in own_nodes(f.node) if isinstance(r, ast.Return)]
+    good = False
+    if len(rets) == 1:
+        if rets[0].value is c:
+            good = True
+        elif isinstance(rets[0].value, ast.Name):
+            nm = rets[0].value.id
+            defs = [st for st in ast.walk(f.node) if isinstance(st, ast.Assign) and any(isinstance(t, ast.Name) and t.id == nm for t in st.targets)]
+            uses = [x for x in ast.walk(f.node) if isinstance(x, ast.Name) and x.id == nm and isinstance(x.ctx, ast.Load)]
+            good = len(defs) == 1 and defs[0].value is c and len(uses) == 1
+    if good:
+        ck.ok("C07.R1", q, "returns the stream obspy.read returned", nontrivial=False)
+    else:
+        ck.violation("C07.R1", q, "returned stream", "the stream returned is not the one obspy.read returned, untouched", loc=f.loc())
+
+
+def parent_stmt(n):
+    while n is not None and not isinstance(n, ast.stmt):
+        n = parent_of(n)
+    return n
+
+
 def _common(ck: Checker, prog: Program):
     reg = prog.registry("data_wrangler", "READ_FUNCTION_DICT")
     if [unparse(v) for v in reg.values()] == READERS and list(reg) == ["mseed", "saf", "minishark", "sac", "gcf", "peer"]:
@@ -969,6 +1107,17 @@ def _read_single(ck: Checker, prog: Program):
         ck.violation("C07.R2", q, "format dispatch", "read_single does not try the readers of READ_FUNCTION_DICT in order", loc=f.loc())
         return
     lp = loops[0]
+    # an absent orientation means "as the file says" to the SAF and PEER readers: it must reach the readers as given
+    pre = f.node.body[:f.node.body.index(lp)]
+    for l in PathTable(prog, f.module).leaves([st for st in pre if not (isinstance(st, ast.Expr) and isinstance(st.value, ast.Constant))]):
+        got = l.env.get("degrees_from_north", R_("degrees_from_north"))
+        if l.exit == "fall" and sp.sympify(got) != R_("degrees_from_north"):
+            ck.violation("C07.R4", q, "degrees_from_north replaced",
+                         f"read_single replaces the caller's `degrees_from_north` by `{got}` before the readers are tried: an absent orientation no longer "
+                         f"reaches the SAF / PEER readers, which would have taken it from the file header", loc=f.loc())
+            break
+    else:
+        ck.ok("C07.R4", q, "degrees_from_north reaches the readers as given", nontrivial=False)
     FT, RF = R_("<format>"), R_("<reader>")
     leaves = PathTable(prog, f.module, env={lp.target.elts[0].id: FT, lp.target.elts[1].id: RF}).leaves(lp.body)
     want_call = F("call")(RF, R_("fnames"), F("kw_obspy_read_kwargs")(R_("obspy_read_kwargs")), F("kw_degrees_from_north")(R_("degrees_from_north")))
